@@ -174,6 +174,11 @@ func vc20Set(n any, path []any, v any) (res any, ok bool) {
 			return m, ok
 		}
 
+		if len(path) == 1 && !del {
+			// A key the distributed example does not have.
+			return append(m, yaml.MapItem{Key: p, Value: v}), true
+		}
+
 		return n, false
 	case int:
 		s, isSeq := n.([]any)
@@ -231,6 +236,12 @@ func vc20Catalogue(root yaml.MapSlice) (fields []*vc20Field) {
 		case yaml.MapSlice:
 			if len(path) > 0 {
 				f.kind = vc20KindNode
+				// Removing the objects of a mapping empties the mapping, which
+				// is reported under its own key ("list: empty value").
+				for j := len(path) - 2; j >= 0 && f.altKey == ""; j-- {
+					f.altKey, _ = path[j].(string)
+				}
+
 				fields = append(fields, f)
 			}
 
@@ -242,6 +253,12 @@ func vc20Catalogue(root yaml.MapSlice) (fields []*vc20Field) {
 			return
 		case []any:
 			f.kind, f.isSeq = vc20KindNode, true
+			// Errors about a list of plain values are reported under the
+			// object that holds the list ("rule_lists: at index 1: id: ...").
+			for j := len(path) - 2; j >= 0 && f.altKey == ""; j-- {
+				f.altKey, _ = path[j].(string)
+			}
+
 			fields = append(fields, f)
 			for i, it := range n {
 				// Elements keep the key of the sequence; the enclosing mapping's
@@ -387,12 +404,14 @@ func vc20Values(f *vc20Field, enums map[string][]string, xrefs []string) (vals [
 		ints(0)
 	case vc20KindPrefixLen:
 		ints(0)
-		for _, n := range []int{8, 24, 32, 33, 48, 64, 128, 129} {
+		for _, n := range []int{7, 8, 23, 24, 25, 31, 32, 33, 47, 48, 49, 64, 127, 128, 129} {
 			switch n {
 			case 32, 128:
 				add("max-family", n)
 			case 33, 129:
 				add("max-family+1", n)
+			case 31, 127:
+				add("max-family-1", n)
 			default:
 				add("near", n)
 			}
@@ -412,6 +431,19 @@ func vc20Values(f *vc20Field, enums map[string][]string, xrefs []string) (vals [
 		add("near", "31s")
 		add("near", "24h")
 		add("near", "25h")
+		// Exactly below, at and above the documented limits: 1ms (redis TTL),
+		// 10s and 24h (consul TTL), 6553.5s (TCP idle timeout).
+		add("limit-1", "999us")
+		add("limit-1", "9.999s")
+		add("limit+1", "10.001s")
+		add("limit-1", "23h59m59.999s")
+		add("limit+1", "24h0m0.001s")
+		add("limit-1", "6553.499s")
+		add("limit", "6553.5s")
+		add("limit+1", "6553.501s")
+		add("near", "1.5s")
+		add("near", "499ms")
+		add("near", "501ms")
 		add("huge", "2562047h")
 		add("unparsable", "9999999h")
 		add("unparsable", "1d")
@@ -422,14 +454,25 @@ func vc20Values(f *vc20Field, enums map[string][]string, xrefs []string) (vals [
 		add("one", "1B")
 		add("near", "511B")
 		add("near", "1KB")
+		add("near", "513B")
+		add("max-family-1", "65534B")
 		add("max-family", "65535B")
 		add("max-family+1", "65536B")
+		add("max-family+1", "64KB")
 		add("near", "65537B")
+		add("limit-1", "2147483646B")
 		add("2^31-1", "2147483647B")
 		add("huge", "2GB")
+		add("huge", "4GB")
 		add("huge", "15EB")
 		add("unparsable", "99999EB")
 	case vc20KindBool:
+		if _, absent := f.orig.(vc20Missing); absent {
+			// A documented property that the distributed example does not
+			// set.
+			return []vc20Value{{class: "set-true", v: true}, {class: "set-false", v: false}}
+		}
+
 		add("flip", !f.orig.(bool))
 	case vc20KindEnum:
 		for _, e := range enums[f.key] {
@@ -449,11 +492,25 @@ func vc20Values(f *vc20Field, enums map[string][]string, xrefs []string) (vals [
 	case vc20KindNode:
 		if f.isSeq {
 			add("empty", []any{})
+			if seq := f.orig.([]any); len(seq) > 0 {
+				// The same element twice.
+				dup := append(vc20Copy(seq).([]any), vc20Copy(seq[0]))
+				add("duplicate-element", dup)
+			}
 		} else {
 			add("empty", yaml.MapSlice{})
 		}
+
+		add("wrong-type", "c20-scalar-instead-of-node")
 	}
 
+	if f.kind != vc20KindNode {
+		add("wrong-type", []any{"c20-list-instead-of-scalar"})
+	}
+
+	// An explicit null is not the same thing as a missing key to every
+	// consumer.
+	vals = append(vals, vc20Value{class: "null", v: nil})
 	vals = append(vals, vc20Value{class: "missing", v: vc20Missing{}})
 
 	return vals
@@ -466,10 +523,16 @@ func vc20ValueString(v any) (s string) {
 		return "<missing>"
 	case string:
 		return strconv.Quote(v)
+	case nil:
+		return "null"
 	case yaml.MapSlice:
 		return "{}"
 	case []any:
-		return "[]"
+		if len(v) == 0 {
+			return "[]"
+		}
+
+		return fmt.Sprintf("[%d elements]", len(v))
 	default:
 		return fmt.Sprint(v)
 	}
